@@ -32,11 +32,31 @@ pub trait Kind<'a>: ValueInput<'a, Token: Tok, Span: SpanObs> + Sized + 'a {
     fn toslice<E: ErrTy<'a, Self>>(_p: P<'a, Self, E>) -> Result<P<'a, Self, E>, String> {
         Err(format!("to_slice unsupported on input kind {}", Self::NAME))
     }
+    /// any_ref() / select_ref!: only inputs that can lend their tokens (BorrowInput)
+    fn any_ref<E: ErrTy<'a, Self>>() -> Result<P<'a, Self, E>, String> {
+        Err(format!("input kind {} cannot lend tokens", Self::NAME))
+    }
+    fn sel_ref<E: ErrTy<'a, Self>>(_ts: Vec<char>) -> Result<P<'a, Self, E>, String> {
+        Err(format!("input kind {} cannot lend tokens", Self::NAME))
+    }
     /// select_ref! { Group(xs) => inner input } where the input is a token tree (C16)
     fn tree_leaf<E: ErrTy<'a, Self>>() -> Result<Boxed<'a, 'a, Self, Self, X<E>>, String> {
         Err(format!("input kind {} has no group tokens", Self::NAME))
     }
 }
+
+
+macro_rules! by_ref_impl {
+    () => {
+        fn any_ref<E: ErrTy<'a, Self>>() -> Result<P<'a, Self, E>, String> {
+            Ok(chumsky::primitive::any_ref::<Self, X<E>>().map(|t: &Self::Token| crate::val::Val::T(t.ch())).boxed())
+        }
+        fn sel_ref<E: ErrTy<'a, Self>>(ts: Vec<char>) -> Result<P<'a, Self, E>, String> {
+            Ok(chumsky::primitive::select_ref(move |t: &'a Self::Token, _| if ts.contains(&t.ch()) { Some(crate::val::Val::m("sel", crate::val::Val::T(t.ch()))) } else { None }).boxed())
+        }
+    };
+}
+pub(crate) use by_ref_impl;
 
 fn slice_val(ptr: usize, len: usize) -> Val {
     let (base, sz) = BASE.with(|b| *b.borrow());
@@ -52,6 +72,7 @@ impl<'a> Kind<'a> for &'a str {
 }
 impl<'a> Kind<'a> for &'a [char] {
     const NAME: &'static str = "slice";
+    by_ref_impl!();
     fn toslice<E: ErrTy<'a, Self>>(p: P<'a, Self, E>) -> Result<P<'a, Self, E>, String> {
         Ok(p.to_slice().map(|s: &'a [char]| slice_val(s.as_ptr() as usize, s.len())).boxed())
     }
@@ -68,12 +89,14 @@ pub type CSpan = chumsky::span::SimpleSpan<usize, i64>;
 
 impl<'a, const N: usize> Kind<'a> for &'a [char; N] {
     const NAME: &'static str = "array";
+    by_ref_impl!();
     fn toslice<E: ErrTy<'a, Self>>(p: P<'a, Self, E>) -> Result<P<'a, Self, E>, String> {
         Ok(p.to_slice().map(|s: &'a [char]| slice_val(s.as_ptr() as usize, s.len())).boxed())
     }
 }
 impl<'a> Kind<'a> for &'a [u8] {
     const NAME: &'static str = "bytes";
+    by_ref_impl!();
     fn toslice<E: ErrTy<'a, Self>>(p: P<'a, Self, E>) -> Result<P<'a, Self, E>, String> {
         Ok(p.to_slice().map(|s: &'a [u8]| slice_val(s.as_ptr() as usize, s.len())).boxed())
     }
@@ -81,17 +104,20 @@ impl<'a> Kind<'a> for &'a [u8] {
 impl<'a, It: Iterator<Item = char> + 'a> Kind<'a> for chumsky::input::Stream<It> {
     const NAME: &'static str = "stream";
 }
-impl<'a, In, F> Kind<'a> for chumsky::input::MappedInput<char, SSpan, In, F>
+// Input::map over a slice of (token, span) pairs: can lend its tokens
+impl<'a, F> Kind<'a> for chumsky::input::MappedInput<char, SSpan, &'a [(char, SSpan)], F>
 where
-    In: ValueInput<'a> + 'a,
-    F: Fn(
-            In::MaybeToken,
-        ) -> (
-            <In::MaybeToken as chumsky::util::IntoMaybe<'a, In::Token>>::Proj<char>,
-            <In::MaybeToken as chumsky::util::IntoMaybe<'a, In::Token>>::Proj<SSpan>,
-        ) + 'a,
+    F: Fn(&'a (char, SSpan)) -> (&'a char, &'a SSpan) + 'a,
 {
     const NAME: &'static str = "mapped";
+    by_ref_impl!();
+}
+// Input::map over a boxed Stream of (token, span) pairs
+impl<'a, F> Kind<'a> for chumsky::input::MappedInput<char, SSpan, chumsky::input::BoxedStream<'a, (char, SSpan)>, F>
+where
+    F: Fn((char, SSpan)) -> (char, SSpan) + 'a,
+{
+    const NAME: &'static str = "mstream";
 }
 impl<'a, In: ValueInput<'a, Token = char, Span = SSpan> + 'a> Kind<'a> for chumsky::input::WithContext<CSpan, In> {
     const NAME: &'static str = "wctx";
@@ -337,20 +363,22 @@ where
                 .map(|s: Vec<I::Token>| Val::S(s.iter().map(|t| t.ch()).collect()))
                 .boxed()
         }
-        G::Any => any::<I, X<E>>().map(|t: I::Token| Val::T(t.ch())).boxed(),
-        G::OneOf(ts) => one_of::<_, I, X<E>>(tks::<I::Token>(ts)).map(|t: I::Token| Val::T(t.ch())).boxed(),
-        G::NoneOf(ts) => none_of::<_, I, X<E>>(tks::<I::Token>(ts)).map(|t: I::Token| Val::T(t.ch())).boxed(),
+        G::Any => any::<I, X<E>>().map(|t: I::Token| crate::val::Val::T(t.ch())).boxed(),
+        G::OneOf(ts) => one_of::<_, I, X<E>>(tks::<I::Token>(ts)).map(|t: I::Token| crate::val::Val::T(t.ch())).boxed(),
+        G::NoneOf(ts) => none_of::<_, I, X<E>>(tks::<I::Token>(ts)).map(|t: I::Token| crate::val::Val::T(t.ch())).boxed(),
         G::Sel(ts) => {
             let ts = ts.clone();
             chumsky::primitive::select(move |t: I::Token, _| {
                 if ts.contains(&t.ch()) {
-                    Some(Val::m("sel", Val::T(t.ch())))
+                    Some(crate::val::Val::m("sel", crate::val::Val::T(t.ch())))
                 } else {
                     None
                 }
             })
             .boxed()
         }
+        G::AnyR => I::any_ref::<E>()?,
+        G::SelR(ts) => I::sel_ref::<E>(ts.clone())?,
         G::End => end::<I, X<E>>().map(|()| Val::U).boxed(),
         G::Empty => empty::<I, X<E>>().map(|()| Val::U).boxed(),
         G::Cust(k, ok) => {
